@@ -246,6 +246,9 @@ pub fn run_process<T: Send + 'static>(
     ctx.chunk = spec.chunk;
     ctx.crash_at = spec.crash_at;
     ctx.capture_reads = spec.capture_reads;
+    // every second simulated process sees a clock that stands still (a function of its
+    // entropy seed, so replay files need nothing extra)
+    ctx.frozen_clock = spec.entropy % 2 == 0;
     let abandoned = ctx.abandoned.clone();
     let cwd = spec.cwd.clone();
     let gate_for_exit = gate.clone();
